@@ -78,11 +78,16 @@ def pda_to_accept_on_empty_stack_in_place(P: PDA) -> None:
     delta[q_initial, epsilon, epsilon].add((q0, stack_bottom))
     P.q0 = q_initial
 
-    # define a new accepting state
+    # define a state that empties the stack, and a new accepting state
+    q_drain = fresh_state(Q, 'q_drain')
+    Q.add(q_drain)
     q_accept = fresh_state(Q, 'q_accept')
     Q.add(q_accept)
     for q in F:
-        delta[q, epsilon, stack_bottom].add((q_accept, epsilon))
+        delta[q, epsilon, epsilon].add((q_drain, epsilon))
+    for u in Gamma - {stack_bottom}:
+        delta[q_drain, epsilon, u].add((q_drain, epsilon))
+    delta[q_drain, epsilon, stack_bottom].add((q_accept, epsilon))
     F.clear()
     F.add(q_accept)
 
@@ -140,14 +145,14 @@ def pda_to_cfg(P: PDA, accepts_on_empty_stack: bool = False) -> CFG:
 
     P = copy.deepcopy(P)
 
+    if not accepts_on_empty_stack:
+        pda_to_accept_on_empty_stack_in_place(P)
+
     if len(P.F) != 1:
         pda_to_one_accepting_state_in_place(P)
 
     if not pda_is_push_pop(P):
         pda_to_push_pop_in_place(P)
-
-    if not accepts_on_empty_stack:
-        pda_to_accept_on_empty_stack_in_place(P)
 
     def variable(p: State, q: State) -> Variable:
         return Variable("{}'{}".format(p, q))
